@@ -12,8 +12,10 @@ mod c09;
 mod c10;
 mod c11;
 mod c12;
+mod c14;
 mod c17;
 mod c19;
+mod c20;
 mod common;
 
 use vcore::report::Ctx;
@@ -37,6 +39,7 @@ fn main() {
             "c17" => c17::worker(&rest),
             "rec" => c05::worker(&rest),
             "c12" => c12::worker(&rest),
+            "c20" => c20::worker(&rest),
             _ => usage(),
         }
         return;
@@ -81,8 +84,10 @@ fn main() {
             "C10" => c10::run(ctx),
             "C11" => c11::run(ctx),
             "C12" => c12::run(ctx),
+            "C14" => c14::run(ctx),
             "C17" => c17::run(ctx),
             "C19" => c19::run(ctx),
+            "C20" => c20::run(ctx),
             _ => {
                 eprintln!("unknown property {}", id);
                 2
